@@ -47,4 +47,22 @@ def run(ctx):
                       env={"VERIF_STAGE": "e2e", "VERIF_E2EMODE": "c14", "VERIF_BIG": "0" if quick else "1"}, timeout=2400,
                       replace=_replace())
     return standard(ctx, "C14", ["model/C16_runq_run.vo", "model/C14_sync_run.vo", "model/C14_wp_run.vo", "model/C14_e2e_run.vo"],
-                    stages, rule="", assumptions=[])
+                    stages,
+                    rule="runq/sync: queue snapshots of 0-16 entries (all states, tied/zero/negative priorities) x scripted pool answers "
+                         "x process situations (absent, alive, exited before/after/at the last queue update) x latch x unknown-workers, "
+                         "exhaustive for one entry; wp: 15-60 operations (sync listings, create, whole and split probes, start, start "
+                         "command returning, kill, SIGTERM success, give-up, forget, idle behaviour, shutdown, sweep, restart) on 1-2 "
+                         "instance types with left-over instances/processes/tags; e2e: 40-90 containers (200-500 in thorough), crashing/"
+                         "broken/slow VMs, destroy failures, rate limit, external cancels, hold/drain, one restart. distinct by hash of "
+                         "the case term; non-trivial = at least one queue/pool call (runq, sync), one StartContainer (wp), any run (e2e)",
+                    assumptions=[
+                        "environment assumptions of the transition system (guards A1-A6 in coq/model/C14_sys.v): gone instance => no "
+                        "processes; a pass starts nothing that still has a process on an undiscovered instance (fixStaleLocks; the stale-lock "
+                        "timeout does not expire first); an instance given up by boot timeout without ever answering runs no unknown process; "
+                        "cloud listings complete; probes/start commands of a replaced dispatcher die with it; new instances run nothing",
+                        "atomicity: every model step is one pool-mutex critical section; process creation and the return of the start "
+                        "command are one step; goroutine scheduling, timers, SSH and the real crunch-run are not modelled",
+                        "e2e stage is exploration: its judge is proved to reflect its Prop-level statement, but there is no model of the run; "
+                        "it tolerates 1500 ms between a dispatcher decision and the arrival of its SSH command",
+                        "time is a logical clock in the worker model; timeouts are compared only as expired (1 ns) / not expired (1 h)",
+                    ])
